@@ -73,6 +73,11 @@ def estimate_all(chk, qt, data, tag, expect_var=None, expect_tol=None, case=None
                 chk.violation("proj_linear_vs_projection:%s" % tag.split("|")[0], "projected linear estimate differs from calc_proj_physical of the linear estimate [%s]" % tag, case)
         except Exception as e:
             chk.violation("exception:%s:%s" % (name, tag.split("|")[0]), "%r [%s]" % (e, tag), case)
+    # the nearest physical point does not depend on the order in which Dykstra's sweeps visit the two constraints
+    a, b = out.get("proj_linear:eq_ineq"), out.get("proj_linear:ineq_eq")
+    if a is not None and b is not None and (a.shape != b.shape or np.max(np.abs(a - b)) > 2e-5):
+        chk.violation("proj_linear:order_dependent:%s" % tag.split("|")[0],
+                      "projected linear estimates of the two projection orders differ by %.3g [%s]" % (float(np.max(np.abs(a - b))) if a.shape == b.shape else float("nan"), tag), case)
     for an, (A, O) in algos().items():
         for ln, (L, P) in losses().items():
             name = "%s:%s" % (an, ln)
